@@ -210,7 +210,50 @@ func (e *Exec) memWf(s *State, space string, t *memTable) {
 }
 
 // unbox the variadic index arguments: []interface{} of boxed strings / ints
-func (e *Exec) memArgs(s *State, va Val, sorts []string) []string {
+// static types of the values boxed into a variadic []interface{} argument
+func varargTypes(v ssa.Value) []types.Type {
+	sl, ok := v.(*ssa.Slice)
+	if !ok {
+		return nil
+	}
+	al, ok := sl.X.(*ssa.Alloc)
+	if !ok || al.Referrers() == nil {
+		return nil
+	}
+	out := map[int64]types.Type{}
+	var maxI int64 = -1
+	for _, r := range *al.Referrers() {
+		ia, ok := r.(*ssa.IndexAddr)
+		if !ok || ia.Referrers() == nil {
+			continue
+		}
+		c, ok := ia.Index.(*ssa.Const)
+		if !ok {
+			continue
+		}
+		idx := c.Int64()
+		for _, rr := range *ia.Referrers() {
+			if st, ok := rr.(*ssa.Store); ok {
+				switch mv := st.Val.(type) {
+				case *ssa.MakeInterface:
+					out[idx] = mv.X.Type()
+				case *ssa.ChangeInterface:
+					out[idx] = mv.X.Type()
+				}
+				if idx > maxI {
+					maxI = idx
+				}
+			}
+		}
+	}
+	res := make([]types.Type, maxI+1)
+	for k, t := range out {
+		res[k] = t
+	}
+	return res
+}
+
+func (e *Exec) memArgs(s *State, va Val, sorts []string, vtypes []types.Type) []string {
 	sv, ok := va.(SliceV)
 	if !ok {
 		e.abort("memdb: variadic arguments are not a slice")
@@ -224,18 +267,18 @@ func (e *Exec) memArgs(s *State, va Val, sorts []string) []string {
 	for i := 0; i < n && i < len(sorts); i++ {
 		el := e.load(s, ElemAddr{Arr: sv.Arr, Idx: addT(sv.Off, fmt.Sprint(i)), Key: "arr_" + sanitize(anyT.String())}, anyT).(*Agg)
 		ref := el.F[1].(Scalar).T
-		switch sorts[i] {
-		case "Str":
-			out = append(out, fmt.Sprintf("(%s %s)", e.cur(s, "$unbox_string", []string{"Ref"}, "Str"), ref))
-		case "Int":
-			// ints are boxed as int64 / int / uint32 ...: one ghost family per static type; try the common ones via a union function
-			e.decl("(declare-fun |$unboxint| (Ref) Int)")
-			out = append(out, fmt.Sprintf("(|$unboxint| %s)", ref))
-		case "Bool":
-			out = append(out, fmt.Sprintf("(%s %s)", e.cur(s, "$unbox_bool", []string{"Ref"}, "Bool"), ref))
-		default:
-			out = append(out, "")
+		// the static type of the boxed value: from the MakeInterface that filled the variadic slot
+		var bt types.Type
+		if i < len(vtypes) {
+			bt = vtypes[i]
 		}
+		if bt == nil {
+			e.abort("memdb: index argument %d has no statically known type at %s", i, e.posStr(0))
+		}
+		if sortOf(bt) != sorts[i] {
+			e.abort("memdb: index argument %d has sort %s, the index field has sort %s at %s", i, sortOf(bt), sorts[i], e.posStr(0))
+		}
+		out = append(out, fmt.Sprintf("(%s %s)", e.cur(s, "$unbox_"+sanitize(bt.String()), []string{"Ref"}, sorts[i]), ref))
 	}
 	return out
 }
@@ -334,7 +377,7 @@ func initMemdbModels() {
 		raw := e.symbolic(s, rt.At(0).Type(), "raw").(*Agg)
 		er := e.symbolic(s, rt.At(1).Type(), "err").(*Agg)
 		tag, ref, etag := raw.F[0].(Scalar).T, raw.F[1].(Scalar).T, er.F[0].(Scalar).T
-		ias := e.memArgs(s, args[3], e.indexSorts(t, index))
+		ias := e.memArgs(s, args[3], e.indexSorts(t, index), varargTypes(cc.Args[3]))
 		tid := typeID(t.rowT)
 		e.w.typeNames[tid] = t.rowT
 		s.assume("(=> (not (= %s 0)) (= %s 0))", etag, tag)
@@ -379,7 +422,7 @@ func initMemdbModels() {
 	extModels[txnP+"DeleteAll"] = func(e *Exec, s *State, args []Val, cc *ssa.CallCommon, setRes func(*State, Val), rest func(*State)) {
 		t := e.memTableOf(cc.Args[1])
 		index := constStr(e, cc.Args[2])
-		ias := e.memArgs(s, args[3], e.indexSorts(t, index))
+		ias := e.memArgs(s, args[3], e.indexSorts(t, index), varargTypes(cc.Args[3]))
 		rt := cc.Signature().Results()
 		n := e.symbolic(s, rt.At(0).Type(), "ndeleted")
 		er := e.symbolic(s, rt.At(1).Type(), "delerr").(*Agg)
@@ -421,7 +464,7 @@ func initMemdbModels() {
 			t := e.memTableOf(cc.Args[1])
 			index := constStr(e, cc.Args[2])
 			e.memWf(s, "txn", t)
-			ias := e.memArgs(s, args[3], e.indexSorts(t, index))
+			ias := e.memArgs(s, args[3], e.indexSorts(t, index), varargTypes(cc.Args[3]))
 			rt := cc.Signature().Results()
 			itv := e.symbolic(s, rt.At(0).Type(), "iter").(*Agg)
 			er := e.symbolic(s, rt.At(1).Type(), "err").(*Agg)
@@ -539,7 +582,7 @@ func initMemdbModels() {
 			}
 			term := e.memRow(env.cur, space, t, key)
 			if e.specHook != nil {
-				e.specHook(term, e.cur(env.cur, memFam(space, t, "row"), t.keySorts(), "Ref"))
+				e.specHook(term, e.cur(env.cur, memFam(space, t, "row"), t.keySorts(), "Ref"), "")
 			}
 			return TV{S("%s", term), t.rowT}
 		}
@@ -565,7 +608,15 @@ func initMemdbModels() {
 	}
 	specBuiltins["itrow"] = func(env *SpecEnv, n SCall) TV {
 		it := env.refOf(env.eval(n.Args[0]))
-		return TV{S("(%s %s %s)", env.e.cur(env.cur, "$it.row", []string{"Ref", "Int"}, "Ref"), it, bterm(env.eval(n.Args[1]))), types.NewPointer(types.NewStruct(nil, nil))}
+		var rt types.Type = types.NewPointer(types.NewStruct(nil, nil))
+		if len(n.Args) == 3 {
+			if t := env.e.w.resolveType(specTypeString(n.Args[2]), env.pkg); t != nil {
+				rt = t
+			} else {
+				env.fail("itrow: unknown type %s", specTypeString(n.Args[2]))
+			}
+		}
+		return TV{S("(%s %s %s)", env.e.cur(env.cur, "$it.row", []string{"Ref", "Int"}, "Ref"), it, bterm(env.eval(n.Args[1]))), rt}
 	}
 }
 
